@@ -149,10 +149,21 @@ class Driver:
         self._after(self.n_calls)
 
 
+def _rotate_logger() -> None:
+    """Every third helper is built and driven with the library's logger at DEBUG (branches under `isEnabledFor(DEBUG)` are code under test)."""
+    from vf import logcfg  # noqa: PLC0415
+    from vf.sim import monitors, rotation  # noqa: PLC0415
+
+    if monitors.CURRENT is None and len(rotation.LAST.get("helper_logger_debug", ())) >= 4:
+        rotation.new_case()      # engine W has no Sim marking case boundaries: keep only the last few decisions (a case builds at most a few helpers)
+    logcfg.set_debug(bool(rotation.decide("helper_logger_debug", (False, False, True))))
+
+
 def make_plain(client_info: str = "verif", log_name: str = "dev") -> tuple[Any, RecConn, RecTransport, Driver]:
     from aioesphomeapi._frame_helper.plain_text import APIPlaintextFrameHelper
 
     ensure_loop()
+    _rotate_logger()
     c = RecConn()
     h = APIPlaintextFrameHelper(connection=c, client_info=client_info, log_name=log_name)
     c.helper = h
@@ -165,6 +176,7 @@ def make_noise(psk_b64: str, expected_name: str | None, client_info: str = "veri
     from aioesphomeapi._frame_helper.noise import APINoiseFrameHelper
 
     ensure_loop()
+    _rotate_logger()
     c = RecConn()
     h = APINoiseFrameHelper(connection=c, noise_psk=psk_b64, expected_name=expected_name,
                             client_info=client_info, log_name=log_name)
